@@ -556,7 +556,7 @@ func RunC04Cell(rc *harness.RunCtx) (out harness.Outcome) {
 	}
 	cellLabel := rc.Params["cell"]
 	class, why := sc.classify(cellLabel)
-	out = harness.Outcome{Class: sc.name + " " + class, Trace: res.trace, Stats: res.stats, Probes: res.probes, Params: rc.Params, Cells: []string{cellLabel}}
+	out = harness.Outcome{Class: sc.name + " " + class, Trace: res.trace, Stats: res.stats, Probes: res.probes, Params: rc.Params, Cells: []string{cellLabel}, Digest: fmt.Sprint(res.digest) + endsString(res.ends, c)}
 	if out.Probes == nil {
 		out.Probes = map[string]int{}
 	}
